@@ -157,6 +157,27 @@ def atomic_specs():
     add("Instance(int)", "Instance", lambda: Instance(int), rf.ref_instance(int, True))
     add("Instance(PlainSub)", "Instance", lambda: Instance(PlainSub), rf.ref_instance(PlainSub, True))
     add("BaseInstance(Plain)", "Instance", lambda: BaseInstance(Plain), rf.ref_instance(Plain, True))
+    # classes given by (module-qualified) NAME are resolved lazily, at the first non-None valid
+    # assignment: the class trait is shared by the lattice loop, so values judged after that
+    # assignment see the resolved state (direct and nested uses)
+    NM = "vf.lattice.Plain"
+    add("Instance(name)", "Instance.byname", lambda: Instance(NM), rf.ref_instance(Plain, True))
+    add("Instance(name,nn)", "Instance.byname", lambda: Instance(NM, allow_none=False),
+        rf.ref_instance(Plain, False))
+    add("Tuple(Instance(name),Int)", "nest:Instance.byname", lambda: Tuple(Instance(NM), Int),
+        rf.ref_tuple(rf.ref_instance(Plain, True), rf.ref_int))
+    add("Dict(Str,Instance(name))", "nest:Instance.byname", lambda: Dict(Str, Instance(NM)),
+        rf.ref_dict(rf.ref_isinstance(str), rf.ref_instance(Plain, True)))
+    add("Union(Instance(name),Int)", "nest:Instance.byname", lambda: Union(Instance(NM), Int),
+        rf.ref_union(rf.ref_instance(Plain, True), rf.ref_int))
+    add("Either(Instance(name),Str)", "nest:Instance.byname", lambda: Either(Instance(NM), Str),
+        rf.ref_union(rf.ref_instance(Plain, True), rf.ref_isinstance(str)))
+    add("List(Instance(name))", "nest:Instance.byname", lambda: List(Instance(NM)),
+        rf.ref_list(rf.ref_instance(Plain, True)))
+    add("List(Tuple(Instance(name),Int))", "nest:Instance.byname", lambda: List(Tuple(Instance(NM), Int)),
+        rf.ref_list(rf.ref_tuple(rf.ref_instance(Plain, True), rf.ref_int)))
+    add("Tuple(Type(name),Int)", "nest:Instance.byname", lambda: Tuple(Type(NM), Int),
+        rf.ref_tuple(rf.ref_type(Plain, True), rf.ref_int))
     add("Type(Plain)", "Type", lambda: Type(Plain), rf.ref_type(Plain, True))
     add("Type(Plain,nn)", "Type", lambda: Type(Plain, klass=Plain, allow_none=False), rf.ref_type(Plain, False))
     add("Date", "Date", lambda: Date(), rf.ref_date(False, False))
@@ -372,6 +393,8 @@ def run(ctx):
             if si >= len(atoms) and ctx.quick:
                 rng = ctx.rng("vals", si)
                 vals = rng.sample(vals, 120)
+            if "byname" in kind:
+                vals = vals + lattice(extra_floats=(-1.5,))    # second pass: after lazy resolution
             nbad = 0
             for vid, vclass, v in vals:
                 if judge(ctx, name, kind, K, ref, vid, vclass, v):
